@@ -153,16 +153,16 @@ def analyse(pid, ins, impl, model, pred):
     return res
 
 
-PIPE_THEOREMS = ["ShipVerif.Pipe.C06_in_order_no_invention", "ShipVerif.Pipe.C06_nothing_lost_while_open", "ShipVerif.Pipe.C06_exactly_once_when_drained",
+PIPE_THEOREMS = ["ShipVerif.Pipe.C06_no_duplicates", "ShipVerif.Pipe.fresh_run", "ShipVerif.Pipe.C06_in_order_no_invention", "ShipVerif.Pipe.C06_nothing_lost_while_open", "ShipVerif.Pipe.C06_exactly_once_when_drained",
                  "ShipVerif.Pipe.C06_not_before_setup", "ShipVerif.Pipe.pinv_run", "ShipVerif.Pipe.pipeCfg_is_fixed", "ShipVerif.Pipe.C06_async_flush_reorders",
                  "ShipVerif.Ws.C12_write_waits", "ShipVerif.Ws.wsCfg_is_fixed"]
 
 
 def pipe_part(R, tier, seed):
     """C06 end to end: Pipe model theorems (two Ws endpoints + the receiving SHIP layer, all schedules) and the datapipe engine"""
-    p = C.lake_build(["ShipVerif.Props.C06Pipe"])
+    p = C.lake_build(["ShipVerif.Props.C06Pipe", "ShipVerif.Props.C06Once"])
     lean_ok = p.returncode == 0
-    aud = C.audit("C06pipe", PIPE_THEOREMS, ["ShipVerif.Props.C06Pipe"]) if lean_ok else []
+    aud = C.audit("C06pipe", PIPE_THEOREMS, ["ShipVerif.Props.C06Pipe", "ShipVerif.Props.C06Once"]) if lean_ok else []
     cov = {"obligations": len(PIPE_THEOREMS), "discharged": sum(1 for a in aud if a["ok"]) if lean_ok else 0, "theorems": aud}
     d = C.workdir("C06pipe")
     runs = [(seed, 24)] if tier == "quick" else [(seed + k, 120) for k in range(3)]
